@@ -1255,8 +1255,20 @@ class Interp:
             self.write_place(st, frame, t.dest, ("logcall", name), body, site, t.span)
             return [("go", st, t.t)]
         results = None
+        # 0. call through a fn pointer whose value is known (a fn item or an enum-variant / tuple-struct constructor)
+        if c.ikind == "fnptr" and c.j.get("fnptr") is not None:
+            fv = self.operand(st, frame, Operand_from(c.j["fnptr"]))
+            if isinstance(fv, Ref):
+                fv = self.read_addr(st, fv.root, fv.path)
+            if isinstance(fv, tuple) and fv and fv[0] == "fn":
+                if fv[1] in self.facts.bodies:
+                    results = self.invoke(st, fv, args, depth, site)
+                else:
+                    ctor = self.ctor_struct(fv[1], args)
+                    if ctor is not None:
+                        results = [(st, ctor)]
         # 1. models
-        for nm in names[::-1] + names:
+        for nm in (names[::-1] + names) if results is None else ():
             m = self.models.get(nm)
             if m is None:
                 for suf, fn in SUFFIX_MODELS:
@@ -1370,6 +1382,23 @@ class Interp:
         return bool(fs) and "exp" not in fs
 
     # helper for models: invoke a closure value
+    def ctor_struct(self, path, args):
+        """value built by calling the constructor fn of an enum variant / tuple struct (`Enum::Variant` used as a fn)"""
+        adts = self.facts.adts
+        if "::" not in path:
+            return None
+        head, last = path.rsplit("::", 1)
+        a = adts.get(head)
+        if a is not None:
+            for vi, v in enumerate(a["variants"]):
+                if v["name"] == last and len(v["fields"]) == len(args):
+                    return Struct(head, last, vi, OrderedDict((fl["name"], x) for fl, x in zip(v["fields"], args)))
+        a = adts.get(path)
+        if a is not None and len(a["variants"]) == 1 and len(a["variants"][0]["fields"]) == len(args):
+            v = a["variants"][0]
+            return Struct(path, v["name"], 0, OrderedDict((fl["name"], x) for fl, x in zip(v["fields"], args)))
+        return None
+
     def invoke(self, st, fval, argvals, depth, site=None, label=None):
         """call a closure/fn value; returns list of (state, ret)"""
         if isinstance(fval, ClosureV):
@@ -1845,7 +1874,30 @@ def m_min(I, st, t, args, site, depth):
     return [(st, (t.callee.name, tform(a), tform(b)))]
 
 
+def m_fn_call(I, st, t, args, site, depth):
+    """<F as FnOnce/FnMut/Fn>::call_* inside a generic body that was inlined: the callable is a value of the caller"""
+    c = t.callee
+    if c.resolved and c.resolved_local:
+        return None  # statically resolved: the ordinary inlining path knows the body
+    if len(args) < 2:
+        return None
+    fv = args[0]
+    inner = I.read_addr(st, fv.root, fv.path) if isinstance(fv, Ref) else fv
+    callable_ = isinstance(inner, ClosureV) or (isinstance(inner, tuple) and inner and inner[0] == "fn" and inner[1] in I.facts.bodies)
+    if not callable_:
+        return None
+    a = args[1]
+    a = I.read_addr(st, a.root, a.path) if isinstance(a, Ref) else a
+    argvals = list(a.items) if isinstance(a, TupleV) else None
+    if argvals is None:
+        return None
+    return I.invoke(st, fv if isinstance(inner, ClosureV) else inner, argvals, depth, site)
+
+
 DEFAULT_MODELS = {
+    "std::ops::FnOnce::call_once": m_fn_call,
+    "std::ops::FnMut::call_mut": m_fn_call,
+    "std::ops::Fn::call": m_fn_call,
     "std::ops::Deref::deref": m_deref,
     "std::ops::DerefMut::deref_mut": m_deref,
     "std::clone::Clone::clone": m_clone,
